@@ -16,6 +16,8 @@ CONSTANT EmitCliRows
 CliPrograms == {k \in Kernels : k.name \notin {"rnd", "forever"}} \cup      \* (a program that never ends never ends under the CLI either)
     { K("dups", << "10 PRINT 1", "10 PRINT 2", "5 PRINT 0" >>),
       K("unordered", << "30 PRINT X", "10 X=4", "20 GOSUB 100", "25 END", "100 X=X+1:RETURN" >>),
+      K("tail", << "10 PRINT \"HI\"", "20 PRINT \"TAIL\";" >>),
+      K("quiet_end", << "10 PRINT \"HI\"", "20 X = 1", "30 END" >>),
       K("partial", << "10 PRINT \"abc\";:PRINT Q", "20 PRINT \"d\";", "30 INPUT A", "40 PRINT \"e\";:PRINT 1/0" >>) }
 OptSets == [w : BOOLEAN, t : BOOLEAN, s : BOOLEAN]
 \* Replies are bare numbers: what the program does not consume is read by the interactive
